@@ -19,7 +19,7 @@ import (
 	"verif/ref"
 )
 
-var c05Shapes = []string{"first-tx", "grow", "shrink", "multi-segment", "sqlite-rollback", "wal-commit", "wal-restart", "app-checkpoint", "litefs-checkpoint", "drop", "import", "replica-apply", "replica-snapshot", "role-change-recover"}
+var c05Shapes = []string{"first-tx", "grow", "shrink", "multi-segment", "sqlite-rollback", "wal-commit", "wal-restart", "app-checkpoint", "litefs-checkpoint", "drop", "import", "replica-apply", "replica-snapshot", "role-change-recover", "snapshot-over-fork"}
 
 func init() {
 	register(&core.Check{
@@ -262,6 +262,10 @@ func runC05(c *core.Case) {
 	c.Count("shape_"+shape, 1)
 	if shape == "replica-apply" || shape == "replica-snapshot" {
 		c05Replica(c, shape, ps, jmode, variant)
+		return
+	}
+	if shape == "snapshot-over-fork" {
+		c05Fork(c, shape, ps, jmode, variant)
 		return
 	}
 	dir := c.Dir + "/data"
@@ -692,4 +696,131 @@ func startWithHooks(cl *cluster.Cluster, i int, rec *crashRecorder) {
 	cn.PreOpen = func(n *drv.Node) { rec.attach(n) }
 	_ = cl.Start(i)
 	cn.PreOpen = nil
+}
+
+// c05Fork enumerates crash points while a former primary, which is ahead of
+// the new primary on a fork of its own (several incremental transaction files
+// nobody else has), receives the new primary's snapshot. Every crash image must
+// reopen to exactly its own fork tip or exactly the primary's state.
+func c05Fork(c *core.Case, shape string, ps uint32, jmode string, variant int) {
+	var mu sync.Mutex
+	blocked := map[string]bool{"n1": true}
+	cl, err := cluster.New(c.Dir, []cluster.NodeOpts{{Candidate: true}, {Candidate: true}})
+	if err != nil {
+		c.Inconclusive(err.Error())
+		return
+	}
+	defer cl.Close()
+	cl.Svc.Inject = func(node, op string) error {
+		mu.Lock()
+		defer mu.Unlock()
+		if op == "acquire" && blocked[node] {
+			return fmt.Errorf("scripted: acquire unavailable")
+		}
+		return nil
+	}
+	setBlocked := func(n string, v bool) { mu.Lock(); blocked[n] = v; mu.Unlock() }
+	A, B := cl.Nodes[0], cl.Nodes[1]
+	rec := &crashRecorder{src: A.Dir, base: c.Dir + "/imgs"}
+	startWithHooks(cl, 0, rec)
+	if cl.WaitPrimary(0, 10*time.Second) == nil {
+		c.Inconclusive("primary start")
+		return
+	}
+	led := newLedger()
+	wal := variant%2 == 1
+	detail := map[string]any{"shape": shape, "page_size": ps, "journal_mode": jmode, "wal": wal}
+	wA, err := newWriter(A.Node, "db", ps, wal, jmode, nil, c.SubRng("wa"), led, 1)
+	if err != nil {
+		c.Violate("C05/setup", err.Error(), detail)
+		return
+	}
+	defer func() { wA.close() }()
+	wA.d.BusyRetries = 5000
+	if err := wA.ensure(uint32(6 + variant%7)); err != nil {
+		c.Violate("C05/setup", err.Error(), detail)
+		return
+	}
+	_, _ = wA.txn(3)
+	if err := cl.Start(1); err != nil {
+		c.Inconclusive(err.Error())
+		return
+	}
+	if ok, _, _ := cl.WaitConverged(A, B, []string{"db"}, 5, 30*time.Second); !ok {
+		c.Inconclusive("replica did not converge before the fork")
+		return
+	}
+	// A is isolated and commits on its own; B must not be reachable for A yet
+	A.Proxy.SetMode("refuse")
+	A.Proxy.Cut()
+	B.Proxy.SetMode("refuse")
+	for i, n := 0, 3+variant%3; i < n; i++ {
+		for try := 0; try < 20; try++ {
+			if ok, err := wA.txn(3); err != nil {
+				c.Violate("C05/setup", err.Error(), detail)
+				return
+			} else if ok {
+				break
+			}
+		}
+	}
+	before := mon.PosOf(A.Node, "db")
+	led.put("db", before, wA.d.M)
+	wA.close()
+	setBlocked("n0", true)
+	setBlocked("n1", false)
+	cl.Svc.Expire()
+	if cl.WaitPrimary(1, 20*time.Second) == nil {
+		c.Inconclusive("B did not become primary")
+		return
+	}
+	img, ok := led.get("db", mon.PosOf(B.Node, "db"))
+	if !ok {
+		c.Violate("C05/setup", "B is at a position nobody committed", detail)
+		return
+	}
+	wB, err := newWriter(B.Node, "db", ps, wal, jmode, img, c.SubRng("wb"), led, 1)
+	if err != nil {
+		c.Violate("C05/setup", err.Error(), detail)
+		return
+	}
+	defer wB.close()
+	wB.d.BusyRetries = 5000
+	if err := wB.ensure(0); err != nil {
+		c.Violate("C05/setup", err.Error(), detail)
+		return
+	}
+	for i, n := 0, 1+variant%2; i < n; i++ {
+		for try := 0; try < 20; try++ {
+			if ok, err := wB.txn(3); err != nil {
+				c.Violate("C05/setup", err.Error(), detail)
+				return
+			} else if ok {
+				break
+			}
+		}
+	}
+	after := mon.PosOf(B.Node, "db")
+	led.put("db", after, wB.d.M)
+	if after.TXID >= before.TXID {
+		c.Inconclusive("fork is not ahead")
+		return
+	}
+	// now let A reach B: every OS call and page write of the snapshot apply is a crash point
+	rec.setEnabled(true)
+	B.Proxy.SetMode("pass")
+	ok2, _, _ := cl.WaitConverged(B, A, []string{"db"}, 8, 30*time.Second)
+	rec.snap("done")
+	rec.setEnabled(false)
+	if !ok2 {
+		healthViolations(c, A.Node, "snapshot over fork", detail)
+		if !c.Violated() {
+			c.Violate("C05/operation-failed", fmt.Sprintf("the former primary did not adopt the new primary's state (it is at %s, the primary at %s)", mon.PosOf(A.Node, "db"), after), detail)
+		}
+		return
+	}
+	detail["before"], detail["after"] = before.String(), after.String()
+	wB.close()
+	cl.Close()
+	judgeAll(c, rec, "db", before, after, led, ps, shape, jmode, detail, "")
 }
